@@ -305,6 +305,15 @@ func c03One(c *Ctx, toks []c03tok, compact bool, local map[string]int64) {
 		return
 	}
 	local["grouping-ok"]++
+	if mon.Hash64(text)%29 == 0 {
+		// just before this print, on this goroutine: a print that does not
+		// finish (a hand-built node without its right operand panics in String,
+		// the caller recovers) - what it left behind must not show in the next
+		mon.Try(func() {
+			_ = (&influxql.BinaryExpr{Op: influxql.ADD, LHS: &influxql.VarRef{Val: "left_behind"}}).String()
+		})
+		local["aborted-prints-before-a-print"]++
+	}
 	// round trip
 	var printed string
 	var e2 influxql.Expr
@@ -395,6 +404,118 @@ func c03Optional(c *Ctx, text string, local map[string]int64) {
 
 func init() { Registry["C03"] = checkC03 }
 
+// c03State: grouping must not depend on what the objects involved went
+// through before. (a) One parser that has failed 300000 times (a stream
+// consumer that carries on after syntax errors) parses a valid chain like a
+// new one. (b) A tree printed once, edited in place, and printed again prints
+// like a fresh copy of the edited tree - for groups of a few bytes up to 40 KB.
+func c03State(c *Ctx) {
+	r := c.R
+	// (a)
+	toks := buildChain([]int{4, 0, 5, 1, 17, 18, 8, 6, 3}, nil, nil)
+	chain := renderC03(toks, false)
+	{
+		want := (&c03ref{toks: toks}).expr(1)
+		text := strings.Repeat("a + ; ", 700000) + "; " + chain
+		var got string
+		fails := 0
+		if p, pv, stk := mon.Try(func() {
+			ps := influxql.NewParser(strings.NewReader(text))
+			// (a failed call may or may not have consumed the separator: skip to
+			// the next one either way; the text is long enough for 300000 failures)
+			for fails < 300000 {
+				if _, err := ps.ParseExpr(); err != nil {
+					fails++
+				}
+				tok := influxql.ILLEGAL
+				for tok != influxql.SEMICOLON && tok != influxql.EOF {
+					tok, _, _ = ps.ScanIgnoreWhitespace()
+				}
+				if tok == influxql.EOF {
+					return
+				}
+			}
+			// on to the end of the failing part: two separators in a row
+			prev := influxql.ILLEGAL
+			for {
+				tok, _, _ := ps.ScanIgnoreWhitespace()
+				if tok == influxql.EOF {
+					return
+				}
+				if tok == influxql.SEMICOLON && prev == influxql.SEMICOLON {
+					break
+				}
+				prev = tok
+			}
+			e, err := ps.ParseExpr()
+			if err != nil {
+				got = "error: " + err.Error()
+			} else {
+				got = shapeOf(e)
+			}
+		}); p {
+			r.Violation("panic-in-ParseExpr", map[string]interface{}{"input": trunc(text, 200), "why": fmt.Sprint(pv), "stack": stk})
+		} else if got != want {
+			r.Violation("wrong-grouping", map[string]interface{}{"input": chain, "why": fmt.Sprintf("after %d failed ParseExpr calls on the same parser the chain parses to %s, want %s", fails, got, want)})
+		} else {
+			r.Count("parser-reused-after-300000-failed-expressions", 1)
+		}
+		r.Eval(1)
+	}
+	// (b)
+	for _, n := range []int{1, 40, 120, 2000} {
+		var parts []string
+		for i := 0; i < n; i++ {
+			parts = append(parts, fmt.Sprintf("host = 'srv%04d'", i))
+		}
+		text := "(" + strings.Join(parts, " OR ") + ") AND x / -y > 1 AND (a + b) * c = d"
+		e, err := influxql.ParseExpr(text)
+		if err != nil {
+			r.Violation("chain-rejected", map[string]interface{}{"input": trunc(text, 300), "why": err.Error()})
+			continue
+		}
+		first := e.String()
+		for step, edit := range []func(){
+			func() {
+				influxql.WalkFunc(e, func(nd influxql.Node) {
+					if v, ok := nd.(*influxql.VarRef); ok && v.Val == "host" {
+						v.Val = "region"
+					}
+				})
+			},
+			func() {
+				influxql.WalkFunc(e, func(nd influxql.Node) {
+					if b, ok := nd.(*influxql.BinaryExpr); ok && b.Op == influxql.OR {
+						b.Op = influxql.AND
+					}
+				})
+			},
+			func() {
+				influxql.WalkFunc(e, func(nd influxql.Node) {
+					if pe, ok := nd.(*influxql.ParenExpr); ok {
+						if b, ok := pe.Expr.(*influxql.BinaryExpr); ok && b.Op == influxql.ADD {
+							pe.Expr = &influxql.BinaryExpr{Op: influxql.SUB, LHS: b.RHS, RHS: b.LHS}
+						}
+					}
+				})
+			},
+		} {
+			edit()
+			again, fresh := e.String(), influxql.CloneExpr(e).String()
+			r.Eval(1)
+			if again != fresh {
+				r.Violation("roundtrip-regroups", map[string]interface{}{"input": trunc(text, 300), "why": fmt.Sprintf("printed once (%d bytes), edited in place (step %d), printed again: %q; a fresh copy of the same tree prints %q", len(first), step, trunc(again, 200), trunc(fresh, 200))})
+				break
+			}
+			if e2, err := influxql.ParseExpr(again); err != nil || shapeOf(e2) != shapeOf(e) {
+				r.Violation("roundtrip-regroups", map[string]interface{}{"input": trunc(text, 300), "why": fmt.Sprintf("after an in-place edit the printed text re-parses to another tree (err %v)", err)})
+				break
+			}
+			r.Count("print-edit-print", 1)
+		}
+	}
+}
+
 func checkC03(c *Ctx) (string, bool, []string) {
 	r := c.R
 	rule := "all chains of k operators over the 19 operator spellings for k<=3 (k<=4 in thorough), compact and spaced; all placements of one or two parenthesised sub-chains for k<=3 with one operator per level; signed operand (-x, +x, signed references with a ::type cast) and an operand inside one or two pairs of parentheses of its own at each position for k<=2; negated and explicitly positive parenthesised groups; groups whose whole content is a group; random chains k=5..12 (an eighth of them k=13..48) with parentheses and negations; sign-after-sign spellings (`- -b`, `+ -b`, `-(-b)`, ...) behind every operator, judged only when the parser accepts them. Each case (and a fifth of them again as three arguments of a call: bare, in one group, in two groups): ParseExpr shape vs reference grouper, then String()+ParseExpr shape. Non-trivial = k>=2 (grouping is observable); distinct by rendered text."
@@ -440,6 +561,7 @@ func checkC03(c *Ctx) (string, bool, []string) {
 		}
 		r.Count("caller-edits-of-sign-factors-before-the-run", int64(edits))
 	}
+	c03State(c)
 	type job struct {
 		toks    []c03tok
 		compact bool
